@@ -3,6 +3,10 @@
    mode "raw":   every string over Sym up to MaxLen (breadth-first by appending one symbol)
    mode "edit":  every legal encoding (all partitions) of every payload over PaySym up to MaxPay, and every
                  single-symbol edit of it (delete / insert / replace at each position, truncation at each position)
+   mode "hdr":   every two-chunk encoding of every payload of 2..MaxPay symbols with the size line of the SECOND chunk
+                 header replaced by garbage (nothing, a letter, twelve digits, twelve letters), with and without the line
+                 feed behind it; the second chunk as long as the first one included (a parser that keeps state from the
+                 previous header must not be able to make sense of it)
    Each case is printed with its class and, for legal input, the decoded data.                                  *)
 EXTENDS NcFraming
 CONSTANTS Mode, MaxLen, MaxPay
@@ -16,9 +20,20 @@ Edits(f) == {SubSeq(f, 1, i - 1) \o SubSeq(f, i + 1, Len(f)) : i \in 1..Len(f)}
             \cup {[f EXCEPT ![i] = c] : i \in 1..Len(f), c \in Sym}
             \cup {SubSeq(f, 1, i) : i \in 0..Len(f)}
 
+Twelve(c) == [k \in 1..12 |-> c]
+Garbage == { <<>>, <<"x">>, Twelve("1"), Twelve("x") }
+HdrPayloads == UNION {[1..n -> PaySym] : n \in 2..MaxPay}
+HdrFrames == UNION { UNION { { <<"N", "H">> \o Digits(k) \o <<"N">> \o SubSeq(p, 1, k) \o <<"N", "H">> \o g \o lf \o SubSeq(p, k + 1, Len(p)) \o <<"N", "H", "H", "N">>
+                              : g \in Garbage, lf \in {<<>>, <<"N">>} } : k \in 1..(Len(p) - 1) } : p \in HdrPayloads }
+\* ... and the same with chunks of 10..13 bytes (longer than the longest legal size line): a size line that is missing altogether
+\* in front of a second chunk that is exactly as long as the first one, or one byte shorter / longer
+LongFrames == { <<"N", "H">> \o Digits(n) \o <<"N">> \o [j \in 1..n |-> "x"] \o <<"N", "H">> \o g \o [j \in 1..m |-> "x"] \o <<"N", "H", "H", "N">>
+                : n \in 10..13, m \in 10..13, g \in {<<>>, <<"1">>} }
 Init == IF Mode = "raw" THEN s = <<>> /\ kind = "raw"
+        ELSE IF Mode = "hdr" THEN s \in (HdrFrames \cup LongFrames) /\ kind = "hdr"
         ELSE s \in Frames /\ kind = "frame"
 Next == IF Mode = "raw" THEN Len(s) < MaxLen /\ \E c \in Sym : s' = Append(s, c) /\ kind' = kind
+        ELSE IF Mode = "hdr" THEN FALSE /\ UNCHANGED vars
         ELSE kind = "frame" /\ s' \in Edits(s) /\ kind' = "edit"
 Spec == Init /\ [][Next]_vars
 
